@@ -286,12 +286,23 @@ func EncryptedAssertionEl(e EncSpec, sym []byte, cipherValue []byte) *etree.Elem
 		rm := dsEl(ki, "RetrievalMethod")
 		rm.CreateAttr("URI", "#_ek-1")
 		rm.CreateAttr("Type", "http://www.w3.org/2001/04/xmlenc#EncryptedKey")
+	case "both":
+		// an inline EncryptedKey (naming whatever recipient the spec says) and, beside the
+		// EncryptedData, a second EncryptedKey for the same content key that names no recipient
+		ki := dsEl(ed, "KeyInfo")
+		encryptedKeyEl(ki, e, sym)
 	case "nokey":
 	}
 	cd := xe(ed, "CipherData")
 	xe(cd, "CipherValue").SetText(base64.StdEncoding.EncodeToString(cipherValue))
 	if e.Placement == "detached" {
 		ek := encryptedKeyEl(ea, e, sym)
+		ek.CreateAttr("Id", "_ek-1")
+	}
+	if e.Placement == "both" {
+		plain := e
+		plain.RecipCert = ""
+		ek := encryptedKeyEl(ea, plain, sym)
 		ek.CreateAttr("Id", "_ek-1")
 	}
 	return ea
